@@ -63,5 +63,9 @@ StateListsReady == Len(ToString(FlaggedLists)) > 0
 \* T-StateDefs on one document.  The two range pseudo-classes are left out: what a valid date / number string is has zones the property does
 \* not decide (Calendar.tla CalDecided) and one known open deviation (F18); C18 gates them element by element.
 TheoremKeys == StateKeys \ {"in-range", "out-of-range"}
-StateDefsHold(d, env) == \A k \in TheoremKeys : \A i \in Elems(d) : AlgoList(d, env, FlaggedLists[k], i) = StateHolds(d, [k |-> k], i)
+StateDefsHoldL(L, d, env) == \A k \in TheoremKeys : \A i \in Elems(d) : AlgoList(d, env, L[k], i) = StateHolds(d, [k |-> k], i)
+\* (a model should bind FlaggedLists to a zero-arity definition of ITS OWN module - SD == ST!FlaggedLists - and pass that: TLC evaluates the
+\* constant definitions of the root module once, before the workers start; a constant reached through INSTANCE is cached lazily, and about
+\* one TLC process in sixty was seen to re-evaluate it - i.e. to parse all definition texts again - in every state)
+StateDefsHold(d, env) == StateDefsHoldL(FlaggedLists, d, env)
 =============================================================================
